@@ -157,7 +157,12 @@ def check_case(ctx, c, k_cache):
     mo = lib.run_model([line])[0]
     c2 = dict(c, impl_enc=ec, model_enc=mo)
     eq, detail = P.compare_encode(c2)
-    if not eq:
+    if not eq and not fl['scoped'] and ec[0] == 'err' and mo.startswith('err'):
+        # outside the property's premise (an operator construct crossing a replication boundary) the compiled program
+        # consumes the values out of step; BOTH sides refuse, the exception class then depends on which Python value meets
+        # which primitive (TypeError / ValueError / ...): not a behaviour the model claims to describe
+        ctx.dist['unscoped: both compiled encoders refuse, classes differ'] += 1
+    elif not eq:
         ctx.compare(case, 'impl-compiled', 'model-compiled', kind='C08-model-encode', holds=lambda: e[:2] == ec[:2],
                     extra=dict(detail=detail, **fl))
     if e[0] != 'ok':
@@ -175,7 +180,9 @@ def check_case(ctx, c, k_cache):
     line = '%s %d %s:%d %s' % ('cdecc' if c['compressed'] else 'cdecu', c['nsub'], e[1] or '-', e[2], c['toks'])
     mo = lib.run_model([line])[0]
     eq, detail = compare_with_model(dc, mo)
-    if not eq and not ('ulp=1' in detail and 'scale=-' in detail):
+    if not eq and not fl['scoped'] and dc[0] == 'err' and mo.startswith('err'):
+        ctx.dist['unscoped: both compiled decoders refuse, classes differ'] += 1
+    elif not eq and not ('ulp=1' in detail and 'scale=-' in detail):
         ctx.compare(case, 'impl-compiled', 'model-compiled', kind='C08-model-decode', holds=lambda: same_dec(di, dc),
                     extra=dict(detail=detail, **fl))
     return di
